@@ -638,5 +638,11 @@ func contains(ns []*Node, n *Node) bool {
 }
 
 func init() {
-	propRunners["C12"] = runDKG
+	propRunners["C12"] = func(t *testing.T, rc *RunCtx) {
+		if rc.Param("mode", "") == "realnet" {
+			runRealNet(t, rc, "C12")
+			return
+		}
+		runDKG(t, rc)
+	}
 }
